@@ -1,6 +1,7 @@
 package yubiagent
 
 //vsym:pkg github.com/theparanoids/ysshra/agent/yubiagent
+//vsym:include yubiagent/ctor.go || yubiagent/ctor_bb.go
 //vsym:entry H12_serve_over_the_shim_agent
 //vsym:include C20/h20_serve.go
 //vsym:model golang.org/x/crypto/ssh/agent.NewClient m20NewClient
